@@ -1,0 +1,262 @@
+// Verification hooks (feature `verif`): read-only projections of internal state,
+// a scripted compaction strategy, yield points / events for schedule control and
+// a clock override. Nothing in here is compiled without the feature.
+
+use crate::{
+    compaction::{state::CompactionState, Choice, CompactionStrategy, Input},
+    config::Config,
+    version::Version,
+    HashSet, Memtable, SeqNo, Table, TableId, Tree,
+};
+use std::sync::{Arc, Mutex, OnceLock, RwLock};
+
+/// Projection of one super version.
+pub struct SuperVersionDump {
+    pub seqno: SeqNo,
+    pub version_id: u64,
+    pub active: Arc<Memtable>,
+    pub sealed: Vec<Arc<Memtable>>,
+    /// level -> run -> tables
+    pub levels: Vec<Vec<Vec<Table>>>,
+    pub blob_file_ids: Vec<u64>,
+    /// blob file id -> (len, bytes, on_disk_bytes)
+    pub gc_stats: Vec<(u64, u64, u64, u64)>,
+}
+
+/// Projection of the whole super version deque plus the hidden set.
+pub struct Dump {
+    pub history: Vec<SuperVersionDump>,
+    pub hidden: Vec<TableId>,
+}
+
+fn dump_version(version: &Version) -> (Vec<Vec<Vec<Table>>>, Vec<u64>, Vec<(u64, u64, u64, u64)>) {
+    let levels = version
+        .iter_levels()
+        .map(|lvl| {
+            lvl.iter()
+                .map(|run| run.iter().cloned().collect::<Vec<_>>())
+                .collect::<Vec<_>>()
+        })
+        .collect::<Vec<_>>();
+
+    let mut blob_file_ids = version
+        .blob_files
+        .iter()
+        .map(crate::BlobFile::id)
+        .collect::<Vec<_>>();
+    blob_file_ids.sort_unstable();
+
+    let mut gc = version
+        .gc_stats()
+        .iter()
+        .map(|(id, e)| (*id, e.len as u64, e.bytes, e.on_disk_bytes))
+        .collect::<Vec<_>>();
+    gc.sort_unstable();
+
+    (levels, blob_file_ids, gc)
+}
+
+/// Dumps the super version history (oldest first) and the hidden set.
+#[must_use]
+#[allow(clippy::expect_used)]
+pub fn dump(tree: &Tree) -> Dump {
+    let hidden = {
+        let state = tree.compaction_state.lock().expect("lock is poisoned");
+        let mut v = state.hidden_set().iter().collect::<Vec<_>>();
+        v.sort_unstable();
+        v
+    };
+
+    let lock = tree.version_history.read().expect("lock is poisoned");
+
+    let history = lock
+        .iter()
+        .map(|sv| {
+            let (levels, blob_file_ids, gc_stats) = dump_version(&sv.version);
+            SuperVersionDump {
+                seqno: sv.seqno,
+                version_id: sv.version.id(),
+                active: sv.active_memtable.clone(),
+                sealed: sv.sealed_memtables.iter().cloned().collect(),
+                levels,
+                blob_file_ids,
+                gc_stats,
+            }
+        })
+        .collect();
+
+    Dump { history, hidden }
+}
+
+/// `(min, max)` stored seqno of a table (without the global seqno shift).
+#[must_use]
+pub fn table_seqnos(table: &Table) -> (SeqNo, SeqNo) {
+    table.verif_stored_seqnos()
+}
+
+/// Blob file facts: `(id, item count, total uncompressed bytes, total compressed bytes)`.
+#[must_use]
+pub fn blob_file_facts(tree: &Tree) -> Vec<(u64, u64, u64, u64)> {
+    use crate::AbstractTree;
+    let mut v = tree
+        .current_version()
+        .blob_files
+        .iter()
+        .map(|bf| {
+            (
+                bf.id(),
+                bf.0.meta.item_count,
+                bf.0.meta.total_uncompressed_bytes,
+                bf.0.meta.total_compressed_bytes,
+            )
+        })
+        .collect::<Vec<_>>();
+    v.sort_unstable();
+    v
+}
+
+/// What the scripted strategy should return on its next `choose`.
+#[derive(Clone, Debug)]
+pub enum ScriptedChoice {
+    DoNothing,
+    Merge {
+        table_ids: Vec<TableId>,
+        dest_level: u8,
+        canonical_level: u8,
+        target_size: u64,
+    },
+    Move {
+        table_ids: Vec<TableId>,
+        dest_level: u8,
+    },
+    Drop {
+        table_ids: Vec<TableId>,
+    },
+}
+
+/// A compaction strategy that returns exactly the choice it was constructed with.
+pub struct Scripted(pub ScriptedChoice);
+
+impl CompactionStrategy for Scripted {
+    fn get_name(&self) -> &'static str {
+        "VerifScripted"
+    }
+
+    fn choose(&self, _: &Version, _: &Config, _: &CompactionState) -> Choice {
+        match &self.0 {
+            ScriptedChoice::DoNothing => Choice::DoNothing,
+            ScriptedChoice::Merge {
+                table_ids,
+                dest_level,
+                canonical_level,
+                target_size,
+            } => Choice::Merge(Input {
+                table_ids: table_ids.iter().copied().collect::<HashSet<_>>(),
+                dest_level: *dest_level,
+                canonical_level: *canonical_level,
+                target_size: *target_size,
+            }),
+            ScriptedChoice::Move {
+                table_ids,
+                dest_level,
+            } => Choice::Move(Input {
+                table_ids: table_ids.iter().copied().collect::<HashSet<_>>(),
+                dest_level: *dest_level,
+                canonical_level: *dest_level,
+                target_size: u64::MAX,
+            }),
+            ScriptedChoice::Drop { table_ids } => {
+                Choice::Drop(table_ids.iter().copied().collect::<HashSet<_>>())
+            }
+        }
+    }
+}
+
+/// Observer for compaction choices and linearization-point events.
+///
+/// `name` identifies the event, `args` carries cheap scalar state.
+pub type EventFn = dyn Fn(&'static str, &[u64]) + Send + Sync;
+
+/// Called at yield points; may block the calling thread (schedule control).
+pub type YieldFn = dyn Fn(&'static str) + Send + Sync;
+
+static EVENT: OnceLock<RwLock<Option<Arc<EventFn>>>> = OnceLock::new();
+static YIELD: OnceLock<RwLock<Option<Arc<YieldFn>>>> = OnceLock::new();
+static CLOCK: OnceLock<Mutex<Option<std::time::Duration>>> = OnceLock::new();
+
+#[allow(clippy::expect_used)]
+pub fn set_event_handler(f: Option<Arc<EventFn>>) {
+    *EVENT
+        .get_or_init(|| RwLock::new(None))
+        .write()
+        .expect("lock is poisoned") = f;
+}
+
+#[allow(clippy::expect_used)]
+pub fn set_yield_handler(f: Option<Arc<YieldFn>>) {
+    *YIELD
+        .get_or_init(|| RwLock::new(None))
+        .write()
+        .expect("lock is poisoned") = f;
+}
+
+#[allow(clippy::expect_used)]
+pub fn set_clock(now: Option<std::time::Duration>) {
+    *CLOCK
+        .get_or_init(|| Mutex::new(None))
+        .lock()
+        .expect("lock is poisoned") = now;
+}
+
+#[allow(clippy::expect_used)]
+pub(crate) fn clock() -> Option<std::time::Duration> {
+    CLOCK.get().and_then(|c| *c.lock().expect("lock is poisoned"))
+}
+
+#[allow(clippy::expect_used)]
+pub(crate) fn event(name: &'static str, args: &[u64]) {
+    if let Some(cell) = EVENT.get() {
+        let f = cell.read().expect("lock is poisoned").clone();
+        if let Some(f) = f {
+            f(name, args);
+        }
+    }
+}
+
+#[allow(clippy::expect_used)]
+pub(crate) fn yield_point(name: &'static str) {
+    if let Some(cell) = YIELD.get() {
+        let f = cell.read().expect("lock is poisoned").clone();
+        if let Some(f) = f {
+            f(name);
+        }
+    }
+}
+
+/// Reports a compaction choice as an event: kind (0 nothing, 1 merge, 2 move, 3 drop),
+/// dest level, target size, then the table ids.
+pub(crate) fn report_choice(choice: &Choice) {
+    let mut args: Vec<u64> = vec![];
+    match choice {
+        Choice::DoNothing => args.extend([0, 0, 0]),
+        Choice::Merge(input) => {
+            args.extend([1, u64::from(input.dest_level), input.target_size]);
+            let mut ids = input.table_ids.iter().copied().collect::<Vec<_>>();
+            ids.sort_unstable();
+            args.extend(ids);
+        }
+        Choice::Move(input) => {
+            args.extend([2, u64::from(input.dest_level), input.target_size]);
+            let mut ids = input.table_ids.iter().copied().collect::<Vec<_>>();
+            ids.sort_unstable();
+            args.extend(ids);
+        }
+        Choice::Drop(ids) => {
+            args.extend([3, 0, 0]);
+            let mut ids = ids.iter().copied().collect::<Vec<_>>();
+            ids.sort_unstable();
+            args.extend(ids);
+        }
+    }
+    event("choice", &args);
+}
